@@ -55,6 +55,9 @@ def run(c):
         # reach nobody else
         ws[11] = {"kind": "ptrace", "prog": ["tree", "2", "c17tok%d_a" % si], "cancel_ms": 80}
         ws[12] = {"kind": "ptrace", "prog": ["tree", "2", "c17tok%d_b" % si], "cancel_ms": 150}
+        # several users of ONE environment at once: each opens and reads back its own file again and again, with a Ping now and then
+        for wi in (13, 14, 15):
+            ws[wi] = {"kind": "openloop", "env": 2, "rounds": 120, "tag": "own-%d-%d" % (si, wi), "prog": ["-"]}
         # a long call on environment 1 and a Ping on the same environment issued while it runs (every third set: 3.5 s)
         if si % 3 == 0:
             ws[9] = {"kind": "container", "env": 1, "prog": ["sleep", "3500"], "_long": True}
@@ -86,6 +89,12 @@ def run(c):
             if w["kind"] == "ping" and (a["error"] or b["error"]):
                 c.finding_or_violation({"kind": "independence", "what": "a call on an environment fails because another call on it is in progress", "call": "Ping"},
                                        {"workload": w, "alone": a, "among_others": b, "all_workloads": x["workloads"]}, klass="ping")
+            if w["kind"] == "openloop":
+                if a["stdout"] != "ok" or b["stdout"] != "ok":
+                    c.finding_or_violation({"kind": "independence", "what": "users of one environment get each other's answers (Open / Ping issued concurrently on it)",
+                                            "alone_ok": a["stdout"] == "ok"},
+                                           {"workload": w, "alone": a, "among_others": b, "all_workloads": x["workloads"]}, klass="env-shared")
+                continue
             if pa != pb:
                 what = "verdict or exit value differs" if pa[:2] != pb[:2] else "descriptor table differs"
                 c.finding_or_violation({"kind": "independence", "what": what + " between the run alone and the run among 15 others", "runner": w["kind"]},
@@ -95,6 +104,21 @@ def run(c):
                                        {"workload": w, "table": b["stdout"]}, klass="foreign-fd")
     if len(obs) < len(cases) and not any(o.get("hang") for o in obs):
         raise RuntimeError("harness stopped after %d of %d sets" % (len(obs), len(cases)))
+    # ---- a run that executes a freshly written program through its descriptor, next to a run cloned while the file was still open for writing
+    iters = 12 if c.quick() else 80
+    eo = c.run_harness(exe, [{"id": 0, "mode": "etxtbsy", "iters": iters, "with_b": False}, {"id": 1, "mode": "etxtbsy", "iters": iters, "with_b": True}], env=env, timeout=600)
+    for o in eo:
+        if "harness_err" in o:
+            raise RuntimeError(o["harness_err"])
+    c.count("fresh-executable", nontrivial=True, klass="fresh-executable")
+    c.evaluations += 2 * iters - 1
+    alone_bad = [x for x in eo[0]["outcomes"] if x != "exit 7"]
+    tog_bad = [x for x in eo[1]["outcomes"] if x != "exit 7"]
+    if alone_bad:
+        raise RuntimeError("a freshly written program does not even start on its own: %s" % alone_bad[:3])
+    if tog_bad:
+        c.finding_or_violation({"kind": "independence", "what": "a run of a freshly written program (exec descriptor) fails because another run was being launched while the file was written",
+                                "error": tog_bad[0][:60]}, {"outcomes_alone": eo[0]["outcomes"], "outcomes_next_to_the_other_run": eo[1]["outcomes"]}, klass="etxtbsy")
     c.sample({"workloads": cases[0]["workloads"][:6], "alone": [dict(a) for a in (obs[0].get("alone") or [])[:6] if a],
               "among_others": [dict(a) for a in (obs[0].get("together") or [])[:6] if a]})
     c.cov["sets"] = nset
